@@ -4,13 +4,14 @@ package sx
 import (
 	"fmt"
 	"strings"
+	"sync/atomic"
 )
 
 // T is an S-expression: an atom (A != "", L == nil) or a list.
 type T struct {
 	A   string
 	L   []*T
-	key string
+	key atomic.Pointer[string] // memoised String(); terms are shared between solver goroutines
 }
 
 func Atom(a string) *T { return &T{A: a} }
@@ -71,12 +72,11 @@ func (t *T) Head() string {
 }
 
 func (t *T) String() string {
-	if t.key != "" {
-		return t.key
-	}
 	if t.L == nil {
-		t.key = t.A
-		return t.key
+		return t.A
+	}
+	if k := t.key.Load(); k != nil {
+		return *k
 	}
 	var b strings.Builder
 	b.WriteByte('(')
@@ -87,8 +87,9 @@ func (t *T) String() string {
 		b.WriteString(x.String())
 	}
 	b.WriteByte(')')
-	t.key = b.String()
-	return t.key
+	k := b.String()
+	t.key.Store(&k)
+	return k
 }
 
 func Eq(a, b *T) bool { return a.String() == b.String() }
